@@ -1355,6 +1355,15 @@ fn pivots_w5(r: &mut Report) {
     let stick: Vec<Point2> = (0..5).map(|k| Point2::new(0.75 * k as f64, 0.0)).collect();
     pivot_family(r, DEADEND, "5 points 0.75 apart on the x axis", &stick, 1.0, &[BallPivotStart::StartOnIndexDir(2, Vector2::new(0.0, 1.0))], &[BallPivotEnd::EndOnRepeat], &[], 1);
     }
+    // a ball much larger than the point spacing rolling along a gently curved chain: every pivot is a small angle (spacing / radius
+    // + spacing / curvature radius = 1e-4 .. 6e-4 rad), a genuine contact each time (a cut-off on the pivot angle that grows with the
+    // radius would roll through these points)
+    for (big, rad) in [(5000.0, 1000.0), (5000.0, 4000.0), (2.0e5, 1.0e4)] {
+        let step = 0.5 / big;
+        let chain: Vec<Point2> = (0..60).map(|k| { let a = 0.3 + step * (k as f64 + 0.13 * ((k * 7) % 5) as f64); Point2::new(big * a.cos(), big * a.sin()) }).collect();
+        let out0 = chain[0].coords.normalize();
+        pivot_family(r, "", &format!("60 points about 0.5 apart on an arc of radius {:e}", big), &chain, rad, &[BallPivotStart::StartOnIndexDir(0, out0)], &[BallPivotEnd::EndOnIndex(59), BallPivotEnd::EndOnIndex(30)], &[], 1);
+    }
     // a filled grid: the ball can rest on a boundary point only; starting on an interior point must not produce a step with points inside the ball
     let g = cloud2(7, 7, &[]);
     for i in [0usize, 3, 6, 24, 8, 48, 45, usize::MAX] { for dir in [AngleDir::Ccw, AngleDir::Cw] {
